@@ -267,6 +267,17 @@ def gen_cases(tier, seed):
             continue
         entries = ["script", "function", "source"] + (["pty"] if rng.random() < 0.34 else [])
         cases.append({"src": src, "line": line, "setup": setup, "entries": entries})
+    # directed: every metacharacter as the last word of the line, escaped and quoted, through all five entries
+    # (where a line ends is decided separately at the prompt: continuation prompt, trimming)
+    for ch in c01.META:
+        for style in c01.styles_for(ch):
+            if style == "esc" and ch == "&":
+                continue          # C01's open family (a final `\&` backgrounds the command)
+            for lead in ("x ", ""):
+                line = "vp_argv " + lead + c01.write_arg(ch, style)
+                if ok_line(line):
+                    cases.append({"src": "c01", "line": line, "setup": {"files": {"a": "", "aa": "", "b": ""}},
+                                  "entries": ["script", "function", "source", "pty"]})
     return cases
 
 
